@@ -52,7 +52,7 @@ CQ_STUBS = [
 PROPS = {}
 
 # properties whose checks are registered in MANIFEST.json (measured below the tier caps)
-REGISTERED = ["C01", "C02", "C03", "C05", "C08", "C09", "C10", "C11", "C14", "C15", "C16"]
+REGISTERED = ["C01", "C02", "C03", "C05", "C07", "C08", "C09", "C10", "C11", "C12", "C14", "C15", "C16"]
 
 NOT_APPLICABLE = [
     dict(property_id="C04", reason="2-run hyperproperty over the whole runtime incl. tokio scheduler, rand ChaCha (cpuid inline asm) and process-global counters; no kernel function decides it and whole-run encodings do not fit CBMC (a 2-event run is already >100k SSA steps)"),
@@ -387,5 +387,28 @@ PROPS["C07"] = dict(
         H(M07, "c07_send_busy_queue_bounded", fs=4096, mem=16, bounds="busy, Queue(limit<=400 symbolic), 0/1 queued msg, offered len<=300"),
         H(M07, "c07_unbusy_step_one_queued", fs=4096, mem=16, unwindset=[(r"Channel::unbusy", None, 3)], bounds="bitrate in [1,2^44], one queued message len<=1000; unbusy at now=1000"),
         H(M07, "c07_unbusy_step_two_queued", fs=4096, mem=24, unwindset=[(r"Channel::unbusy", None, 3)], bounds="bitrate in [1,2^44], two queued messages len<=1000 each; unbusy"),
+    ],
+)
+
+
+# --------------------------------------------------------------------------- C12
+M12 = "net::runtime::verif_c12"
+PROPS["C12"] = dict(
+    crate="des", mounts=NR_MOUNTS + [dict(file="des/src/net/runtime/mod.rs", decl="mod verif_c12", harness="c12.rs")], prepend=DES_PREPEND,
+    functions=["des::net::ObjectPath::{default,from,appended,parent,nonzero_parent,name,len,is_root,as_parent_str,eq}", "des::net::runtime::ModuleTree::{add,get}", "ModuleRef::{module_restart,at_sim_start,num_sim_start_stages}"],
+    level_text="Claimed for the ordering kernels (bounded model checking): ObjectPath bookkeeping for paths of depth <= 3 over component names of 1 and 2 bytes with symbolic content over {a, b} (so whether one name textually extends the other is decided by the solver); ModuleTree::add yields the depth-first pre-order with siblings in creation order for 4-module trees with prefix-sharing sibling names (a/ab, ab/a) where the order of the add calls is a symbolic choice among three valid orders; in these harnesses ObjectPath::parent is replaced by an equivalent for the harness' path family (the real parent(): String::truncate + rfind + Arc<str> rebuild exhausts memory), ObjectPath eq/len/is_root and all of ModuleTree::add are real; each declared start-up stage of a module (symbolic count <= 3) runs exactly once, ascending, bracketed by the processing stack. NOT decided: the stage-major loop over all modules in SimLifecycle::at_sim_start / at_sim_end (needs Runtime<Sim<A>> and tokio), SimBuilder's duplicate / missing-parent rejection, parent()/child() lookups (FxHashMap children: hashbrown is outside the encoding).",
+    claim="Name lengths are concrete, name contents symbolic; tree positions are compared by Arc identity.",
+    assumptions=NR_STUBS + ["component names: fixed lengths 1 and 2, symbolic bytes over {a,b}", "trees of 4 modules, two fixed insertion orders"],
+    outside=["SimLifecycle::at_sim_start/at_sim_end loops over the whole tree", "SimBuilder::node front end (duplicate / missing parent panics)", "ModuleContext::child_of and parent()/child() lookups (FxHashMap)", "trees with more than 4 modules, arbitrary insertion orders"],
+    harnesses=[
+        H(M12, "c12_path_parse3", bounds="ObjectPath::from on every 3-byte string over {a,b,.}"),
+        H(M12, "c12_path_appended", bounds="root.appended(1-byte name).appended(2-byte name), bytes symbolic over {a,b}"),
+        H(M12, "c12_tree_orders_prefix_names", fs=4096, mem=16, bounds="siblings a, ab + children; order of the 4 add calls symbolic among 3 valid orders; ObjectPath::parent replaced by a table lookup"),
+        H(M12, "c12_tree_orders_prefix_names_rev", fs=4096, mem=16, bounds="siblings ab, a + children; same"),
+        H(M12, "c12_path_parent", tier="experimental", mem=30, bounds="parse 'x.yz' (bytes symbolic over {a,b}), parent(), parent().parent()"),
+        H(M12, "c12_tree_prefix_siblings_short_first", tier="experimental", fs=4096, mem=30, bounds="CONCRETE scenario: siblings a, ab with children; insertion order a, ab, ab.x, a.x"),
+        H(M12, "c12_tree_prefix_siblings_long_first", tier="experimental", fs=4096, mem=30, bounds="CONCRETE scenario: insertion order ab, a, a.x, ab.x"),
+        H(M12, "c12_tree_unrelated_siblings", tier="experimental", fs=4096, mem=30, bounds="CONCRETE scenario: siblings a, b; insertion order a, b, b.x, a.x"),
+        H(MNR, "c09_restart_runs_stages_once", bounds="stage count symbolic 0..3; each stage once, ascending, bracketed"),
     ],
 )
